@@ -171,7 +171,9 @@ def main():
             cases.append({"id": len(cases), "fn": fname, "ident": ident, "kind": kind, "sub": sub, "outcome": outcome,
                           "prov": prov, "clean": clean})
     # objects that are not instrumentable Python functions, and unresolvable names
-    others = {"builtin_len": len, "a_class": NW.Holder, "an_int": 3, "a_module": NW.math, "a_lambda": NW.lam, "a_coroutine_fn": NW.coro}
+    _ns = {}
+    exec("def made_by_exec(x):\n    y = x + 1\n    return y\n", _ns)        # a Python function whose source cannot be found
+    others = {"made_by_exec": _ns["made_by_exec"], "builtin_len": len, "a_class": NW.Holder, "an_int": 3, "a_module": NW.math, "a_lambda": NW.lam, "a_coroutine_fn": NW.coro}
     for name, obj in others.items():
         outcome, prov, clean = try_activate(obj, {name: obj}, f"{name} > x")
         cases.append({"id": len(cases), "fn": name, "ident": "x", "kind": "nonfunc", "sub": name, "outcome": outcome, "prov": "", "clean": clean})
